@@ -41,7 +41,10 @@ func localExpected(ip net.IP) bool {
 }
 
 func (r *Run) c17IP() net.IP {
-	switch r.rng.Intn(15) {
+	switch r.rng.Intn(16) {
+	case 15:
+		// the all-zero address in its three encodings: an ordinary, non-exempt address for the rule
+		return []net.IP{{0, 0, 0, 0}, net.IP{0, 0, 0, 0}.To16(), make(net.IP, 16)}[r.rng.Intn(3)]
 	case 12:
 		// IPv6 unique-local (fc00::/7): private in the eyes of net.IP.IsPrivate, NOT exempt under BEP 42
 		ip := r.randIP(1)
@@ -160,6 +163,23 @@ func runC17(r *Run) {
 		r.c17Case(ip, id)
 		if i < 3 {
 			r.sample(map[string]string{"ip": hx(ip), "id": hx(id[:])})
+		}
+	}
+	// the functions are pure: a result never depends on which addresses were handled before. Pairs whose masked
+	// prefixes coincide byte for byte across the two families (an IPv4 address and the IPv6 address that starts with the
+	// same four bytes followed by zeros), same seed, one directly after the other, in both orders.
+	for i := 0; i < r.n(300, 5000); i++ {
+		v4 := r.randIP(0)
+		v6 := make(net.IP, 16)
+		copy(v6, v4)
+		r.rng.Read(v6[8:])
+		id := krpc.ID(r.randID())
+		if i%2 == 0 {
+			r.c17Case(v4, id)
+			r.c17Case(v6, id)
+		} else {
+			r.c17Case(v6, id)
+			r.c17Case(v4, id)
 		}
 	}
 	// BEP 42 test vectors (tests, not theorems)
